@@ -104,7 +104,7 @@ func runIdsWord(b Beh, variant int) J {
 	aids, iids := idsOf(acc)
 	aids2, iids2 := idsOf(acc2)
 	o := J{"ev": "build", "case": b.ID, "i": len(steps) - 1, "variant": variant, "aids": aids, "iids": iids, "aids2": aids2, "iids2": iids2,
-		"panic": p1 || p2, "jsonok": false, "jaids": []int{}, "jiids": [][]int{}, "chars": []J{}, "svcsok": true}
+		"iids3": iids, "late": []int{1}, "panic": p1 || p2, "jsonok": false, "jaids": []int{}, "jiids": [][]int{}, "chars": []J{}, "svcsok": true}
 	if c == nil {
 		return o
 	}
@@ -166,6 +166,27 @@ func runIdsWord(b Beh, variant int) J {
 		jiids = append(jiids, l)
 	}
 	o["jaids"], o["jiids"], o["chars"], o["svcsok"] = jaids, jiids, chars, svcsok
+	// the same accessory objects served again (a second container, as a transport that is created again does): same ids
+	func() {
+		defer func() {
+			if r := recover(); r != nil {
+				o["panic"] = true
+			}
+		}()
+		c3 := accessory.NewContainer()
+		for _, a := range acc {
+			c3.AddAccessory(a)
+		}
+		_, o["iids3"] = idsOf(acc)
+		// a service added to an accessory that is already served gets ids as well
+		if len(acc) > 0 {
+			sv := service.New("F00D")
+			sv.AddCharacteristic(characteristic.NewBrightness().Characteristic)
+			acc[0].AddService(sv)
+			_, late := idsOf(acc[:1])
+			o["late"] = late[0]
+		}
+	}()
 	return o
 }
 
